@@ -1,3 +1,4 @@
+import KDVerif.Lemmas.C05Extra
 import KDVerif.Driver.J
 import KDVerif.Model.Interleaved
 open Lean KDVerif.J
@@ -61,6 +62,10 @@ def run (j : Json) : Except String Json := do
         ("evs", Json.arr (evs.map evJson).toArray),
         ("batches", ofNatListList bs.1), ("rest", ofNatList bs.2),
         ("resolved", Json.arr (resolved.map ofNatListList).toArray),
+        ("colls", Json.arr (bs.1.map (fun b =>
+          match collateDispatch (b.map (fun i => (concatGet (dsSizes a) i).1)) with
+          | some d => ofNat d
+          | none => Json.num (-1 : Int))).toArray),
         ("neg", Json.arr negs.toArray)])
 
 def handle (op : String) (j : Json) : Except String Json :=
